@@ -43,7 +43,16 @@ class Built(object):
         self.cv = U.canon(T, v)
         self.feats = U.type_features(T, v)
         self.schema = B.schema(T)
-        self.obj = B.value(T, v)
+        # every other case (by its hash) is built the way values usually are: DEFAULT components equal to their default
+        # are simply not set.  Kept out of the zones of the pinned DEFAULT-comparison findings, whose emulation
+        # describes the comparison the encoder makes when the component IS set.
+        self.defaults_absent = (int(U.case_hash(T, self.cv)[:2], 16) & 1 == 1 and 'default-equal' in self.feats and
+                                not ({'default-real-huge', 'default-constructed', 'default-choice'} & set(self.feats)))
+        if self.defaults_absent:
+            self.obj = B.value(T, v, route=B.OmitDefaults())
+            self.feats = set(self.feats) | {'defaults-left-absent'}
+        else:
+            self.obj = B.value(T, v)
         a = B.absval(self.obj, T)
         if U.canon(T, a) != self.cv:
             raise HarnessMismatch('abs(build(T,v)) != v: %r vs %r' % (a, v))
